@@ -59,7 +59,10 @@ def base_corpus():
               Var('Leaf', 0x8A, 'UnsignedInt', [('id', 'Root'), ('id', 'Parent'), ('id', 'Sub')]),
               Var('Deep', 0x8D, 'UnsignedInt', [('id', 'Root'), ('g', 1, 2)]), Var('Anywhere', 0x4444, 'Binary', [('g', None, None)]),
               Var('Under', 0x4445, 'Float', [('id', 'Root'), ('id', 'Parent'), ('g', None, 3)]), Var('Other', 0x8B, 'Master', []),
-              Var('Big', 0x0100000000000001, 'Integer', [('id', 'Other')])])
+              Var('Big', 0x0100000000000001, 'Integer', [('id', 'Other')]),
+              # an intermediate placeholder: a master declared under Root/(1-2) and elements below it
+              Var('Mid', 0x4446, 'Master', [('id', 'Root'), ('g', 1, 2)]), Var('MidLeaf', 0x4447, 'Utf8', [('id', 'Root'), ('g', 1, 2), ('id', 'Mid')]),
+              Var('MidDeep', 0x4448, 'Integer', [('id', 'Root'), ('g', 1, 2), ('id', 'Mid'), ('g', 0, 1)])])
     return c
 
 
@@ -80,6 +83,10 @@ def random_decl(rng):
         if masters and rng.random() < 0.7:
             par = rng.choice(masters)
             path = par.path + [('id', par.name)]
+            if rng.random() < 0.25 and not (par.path and par.path[-1][0] == 'g'):
+                # a master that sits under a placeholder (intermediate placeholder for everything below it)
+                lo = rng.choice([None, 0, 1]); hi = rng.choice([None, 1, 3])
+                path = path + [('g', lo, hi)]
         else:
             path = []
         m = Var(f'M{i}', new_id(), 'Master', path)
